@@ -9,10 +9,10 @@ only as a hypothesis (how much memory `fdeflate::decompress_to_vec_bounded` itse
 working is not a statement about this crate's code: that half of the property is measured by the
 harness, not proved).
 
-U+0000 in a keyword, language tag or translated keyword is the one case the crate neither refuses
-nor round-trips (defect D16, section 8 of DESIGN.md).  It does not touch the text coding laws; it
-appears here as the explicit hypothesis `NulFree` of the chunk-body round trips, with the
-unrestricted statement kept as `tEXt_roundtrip_statement` and refuted by a concrete chunk.
+U+0000 in a keyword, language tag or translated keyword cannot be represented in the file (these
+fields are NUL-terminated).  Since the repair of defect D16 (section 8 of DESIGN.md; /repo commit
+e8d4f6a) the three `encode` functions refuse such a chunk (`encode_refuses_nul`), and the chunk-body
+round trips hold for every chunk `encode` accepts, without a side condition.
 -/
 namespace Png.C20
 
@@ -51,12 +51,15 @@ theorem latin1_positions (bs : Bytes) :
     ∀ i (h : i < bs.length), ((decodeLatin1 bs).toList[i]?).map Char.toNat = some bs[i].toNat :=
   ⟨decodeLatin1_length bs, decodeLatin1_pointwise bs⟩
 
-/-- the keyword rule of the three `encode` functions: accepted iff Latin-1 and 1..79 characters -/
+/-- the keyword rule of the three `encode` functions: accepted iff Latin-1, 1..79 characters and
+free of U+0000; the refusals in the order of the checks -/
 theorem keyword_rule (kw : String) :
-    (∀ data, encodeKeyword kw = .ok data ↔ encodeLatin1 kw = .ok data ∧ 1 ≤ kw.length ∧ kw.length ≤ 79) ∧
+    (∀ data, encodeKeyword kw = .ok data ↔
+      encodeLatin1 kw = .ok data ∧ 1 ≤ kw.length ∧ kw.length ≤ 79 ∧ NulFree kw) ∧
     (∀ e, encodeKeyword kw = .error e ↔
       (¬ IsLatin1 kw ∧ e = .unrepresentable) ∨
-      (IsLatin1 kw ∧ (kw.length = 0 ∨ kw.length > 79) ∧ e = .invalidKeywordSize)) :=
+      (IsLatin1 kw ∧ (kw.length = 0 ∨ kw.length > 79) ∧ e = .invalidKeywordSize) ∨
+      (IsLatin1 kw ∧ 1 ≤ kw.length ∧ kw.length ≤ 79 ∧ ¬ NulFree kw ∧ e = .unrepresentable)) :=
   ⟨encodeKeyword_ok_iff kw, encodeKeyword_err_iff kw⟩
 
 /-! ## UTF-8 -/
@@ -254,83 +257,58 @@ theorem iTXt_layout :
   ⟨fun kw lang tk text flag method hk hl ht => parseITXt_layout kw lang tk text flag method hk hl ht,
    parseITXt_ok_layout⟩
 
-/-- Full statement of the tEXt body round trip (no restriction on the keyword). -/
-def tEXt_roundtrip_statement : Prop :=
-  ∀ (c : TEXt) (body : Bytes), c.encodeBody = .ok body → parseTEXt body = .ok c
-
-/-- tEXt: what `encode` writes, the decoder reads back as the same chunk — provided the keyword has
-no U+0000 (D16); the text may be any Latin-1 string, U+0000 included -/
-theorem tEXt_roundtrip_partial (c : TEXt) (body : Bytes) (h : c.encodeBody = .ok body)
-    (hn : NulFree c.keyword) : parseTEXt body = .ok c := tEXt_roundtrip c body h hn
-
-/-- D16: the keyword `a U+0000 b` is written without complaint and read back as keyword `a` with
-text `b U+0000 x` -/
-theorem tEXt_roundtrip_counterexample : ¬ tEXt_roundtrip_statement := by
-  intro h
-  have := h ⟨"a\x00b", "x"⟩ [0x61, 0, 0x62, 0, 0x78] (by decide)
-  revert this
-  decide
-
-/-- Full statement of the zTXt body round trip (no restriction on the keyword). -/
-def zTXt_roundtrip_statement : Prop :=
-  ∀ (z : ZCodec) (c : ZTXt) (body : Bytes), c.encodeBody z = .ok body → parseZTXt body = .ok (c.compress z).1
-
-/-- D16 for zTXt: with the keyword `a U+0000 b` the byte `b` is read as the compression method and
-the decoder refuses the chunk the encoder wrote -/
-theorem zTXt_roundtrip_counterexample : ¬ zTXt_roundtrip_statement := by
-  intro h
-  have := h toyCodec ⟨"a\x00b", .compressed [1]⟩ [0x61, 0, 0x62, 0, 0, 1] (by decide)
-  revert this
-  decide
-
-/-- Full statement of the uncompressed iTXt body round trip (no restriction on the three
-NUL-terminated fields). -/
-def iTXt_roundtrip_plain_statement : Prop :=
-  ∀ (z : ZCodec) (c : ITXt) (s : String) (body : Bytes), c.compressed = false → c.text = .uncompressed s →
-    c.encodeBody z = .ok body → parseITXt body = .ok c
-
-/-- D16 for iTXt: a language tag `a U+0000 b` is written and read back as language tag `a`,
-translated keyword `b`, text `U+0000 x` -/
-theorem iTXt_roundtrip_plain_counterexample : ¬ iTXt_roundtrip_plain_statement := by
-  intro h
-  have := h toyCodec ⟨"k", false, "a\x00b", "", .uncompressed "x"⟩ "x"
-    [0x6B, 0, 0, 0, 0x61, 0, 0x62, 0, 0, 0x78] rfl rfl (by decide)
-  revert this
-  decide
+/-- tEXt: what `encode` writes, the decoder reads back as the same chunk — for every chunk `encode`
+accepts; the text may be any Latin-1 string, U+0000 included -/
+theorem tEXt_roundtrip (c : TEXt) (body : Bytes) (h : c.encodeBody = .ok body) :
+    parseTEXt body = .ok c := Png.tEXt_roundtrip c body h
 
 /-- zTXt: what `encode` writes is read back as the chunk in its compressed state … -/
-theorem zTXt_roundtrip_partial (z : ZCodec) (c : ZTXt) (body : Bytes) (h : c.encodeBody z = .ok body)
-    (hn : NulFree c.keyword) : parseZTXt body = .ok (c.compress z).1 := zTXt_roundtrip z c body h hn
+theorem zTXt_roundtrip (z : ZCodec) (c : ZTXt) (body : Bytes) (h : c.encodeBody z = .ok body) :
+    parseZTXt body = .ok (c.compress z).1 := Png.zTXt_roundtrip z c body h
 
 /-- … which has the same keyword and the same text -/
-theorem zTXt_roundtrip_text_partial (z : ZCodec) (hz : z.Ok) (c : ZTXt) (body : Bytes)
-    (h : c.encodeBody z = .ok body) (hn : NulFree c.keyword) :
+theorem zTXt_roundtrip_text (z : ZCodec) (hz : z.Ok) (c : ZTXt) (body : Bytes)
+    (h : c.encodeBody z = .ok body) :
     ∃ c', parseZTXt body = .ok c' ∧ c'.keyword = c.keyword ∧ c'.getText z = c.getText z :=
-  zTXt_roundtrip_text z hz c body h hn
+  Png.zTXt_roundtrip_text z hz c body h
 
 /-- iTXt written uncompressed is read back as the same chunk -/
-theorem iTXt_roundtrip_plain_partial (z : ZCodec) (c : ITXt) (s : String) (body : Bytes)
-    (hc : c.compressed = false) (hs : c.text = .uncompressed s) (h : c.encodeBody z = .ok body)
-    (hn : NulFree c.keyword) (hl : NulFree c.languageTag) (ht : NulFree c.translatedKeyword) :
-    parseITXt body = .ok c := iTXt_roundtrip_plain z c s body hc hs h hn hl ht
+theorem iTXt_roundtrip_plain (z : ZCodec) (c : ITXt) (s : String) (body : Bytes)
+    (hc : c.compressed = false) (hs : c.text = .uncompressed s) (h : c.encodeBody z = .ok body) :
+    parseITXt body = .ok c := Png.iTXt_roundtrip_plain z c s body hc hs h
 
 /-- iTXt written with `compressed = true` is read back as the chunk in its compressed state -/
-theorem iTXt_roundtrip_compressed_partial (z : ZCodec) (c : ITXt) (body : Bytes)
-    (hc : c.compressed = true) (h : c.encodeBody z = .ok body)
-    (hn : NulFree c.keyword) (hl : NulFree c.languageTag) (ht : NulFree c.translatedKeyword) :
-    parseITXt body = .ok (c.compress z).1 := iTXt_roundtrip_compressed z c body hc h hn hl ht
+theorem iTXt_roundtrip_compressed (z : ZCodec) (c : ITXt) (body : Bytes)
+    (hc : c.compressed = true) (h : c.encodeBody z = .ok body) :
+    parseITXt body = .ok (c.compress z).1 := Png.iTXt_roundtrip_compressed z c body hc h
 
 /-- iTXt with `compressed = false` while the text is still in the compressed state: `encode` inflates
 the payload and writes it without checking that it is UTF-8; the decoder reads it back as plain text
-if it is, and refuses the chunk (`Unrepresentable`) if it is not -/
-theorem iTXt_roundtrip_inflated_partial (z : ZCodec) (c : ITXt) (v body : Bytes)
-    (hc : c.compressed = false) (hs : c.text = .compressed v) (h : c.encodeBody z = .ok body)
-    (hn : NulFree c.keyword) (hl : NulFree c.languageTag) (ht : NulFree c.translatedKeyword) :
+if it is, and refuses the chunk (`Unrepresentable`) if it is not.  (Whether writing such a chunk is
+acceptable is property C17's business: `Png.C17.C17_roundtrip_itxt_partial` and its counterexample.) -/
+theorem iTXt_roundtrip_inflated (z : ZCodec) (c : ITXt) (v body : Bytes)
+    (hc : c.compressed = false) (hs : c.text = .compressed v) (h : c.encodeBody z = .ok body) :
     ∃ raw, z.decompress v = some raw ∧
       parseITXt body = match utf8Decode raw with
         | none => .err .unrepresentable
         | some s => .ok { c with text := .uncompressed s } :=
-  iTXt_roundtrip_inflated z c v body hc hs h hn hl ht
+  Png.iTXt_roundtrip_inflated z c v body hc hs h
+
+/-- U+0000 in a keyword (all three kinds), in the language tag or in the translated keyword (iTXt):
+`encode` answers with an error — the old behaviour (D16) of writing a chunk that reads back as
+something else is gone -/
+theorem encode_refuses_nul :
+    (∀ c : TEXt, ¬ NulFree c.keyword → ∃ e, c.encodeBody = .error e) ∧
+    (∀ (z : ZCodec) (c : ZTXt), ¬ NulFree c.keyword → ∃ e, c.encodeBody z = .error e) ∧
+    (∀ (z : ZCodec) (c : ITXt), ¬ NulFree c.keyword ∨ ¬ NulFree c.languageTag ∨ ¬ NulFree c.translatedKeyword →
+      ∃ e, c.encodeBody z = .error e) := Png.encode_refuses_nul
+
+/-- with an acceptable keyword, a U+0000 in the language tag or the translated keyword of an iTXt
+chunk is reported as `Unrepresentable` -/
+theorem encode_refuses_nul_kind (z : ZCodec) (c : ITXt) (data : Bytes)
+    (hk : encodeKeyword c.keyword = .ok data)
+    (hn : ¬ NulFree c.languageTag ∨ ¬ NulFree c.translatedKeyword) :
+    c.encodeBody z = .error .unrepresentable := Png.encode_refuses_nul_kind z c data hk hn
 
 /-! ## Non-vacuity: the hypotheses are satisfiable and the statements say something on concrete values -/
 
@@ -372,5 +350,15 @@ example : (TEXt.mk "Title" "a\x00é").encodeBody = .ok [0x54, 0x69, 0x74, 0x6C, 
     NulFree "Title" := by decide
 example : (ITXt.mk "k" false "en" "é" (.uncompressed "€")).encodeBody toyCodec =
     .ok [0x6B, 0, 0, 0, 0x65, 0x6E, 0, 0xC3, 0xA9, 0, 0xE2, 0x82, 0xAC] := by decide
+-- the former D16 counterexamples are now refusals
+example : (TEXt.mk "a\x00b" "x").encodeBody = .error .unrepresentable ∧ ¬ NulFree "a\x00b" := by decide
+example : (ZTXt.mk "a\x00b" (.compressed [1])).encodeBody toyCodec = .error .unrepresentable := by decide
+example : (ITXt.mk "k" false "a\x00b" "" (.uncompressed "x")).encodeBody toyCodec = .error .unrepresentable ∧
+    (ITXt.mk "k" false "" "a\x00b" (.uncompressed "x")).encodeBody toyCodec = .error .unrepresentable ∧
+    (ITXt.mk "\x00" false "" "" (.uncompressed "x")).encodeBody toyCodec = .error .unrepresentable := by decide
+-- order of the checks: length before NUL, Latin-1 before length
+example : (TEXt.mk "" "x").encodeBody = .error .invalidKeywordSize ∧
+    encodeKeyword (String.ofList (List.replicate 80 '\x00')) = .error .invalidKeywordSize ∧
+    encodeKeyword (String.ofList (List.replicate 80 'Ā')) = .error .unrepresentable := by decide +kernel
 
 end Png.C20
